@@ -202,6 +202,9 @@ def to_msgpack_ops(ops):
                lambda t: msgpack.dumps({'type': 3, 'nsp': '/', 'id': [1], 'data': []}),
                lambda t: msgpack.dumps({'type': 2, 'nsp': '/a', 'data': [['x']], 'id': 'i'}),
                lambda t: msgpack.dumps([1, 2, 3]), lambda t: msgpack.dumps({'type': 1, 'nsp': '/nope'}),
+               lambda t: msgpack.dumps({'type': 0, 'nsp': '*'}), lambda t: msgpack.dumps({'type': 0, 'nsp': '*', 'data': {'t': 1}}),
+               lambda t: msgpack.dumps({'type': 2, 'nsp': '*', 'data': ['msg', 'victim-sid', 1]}),
+               lambda t: msgpack.dumps({'type': 2, 'nsp': '*', 'data': ['*', 'victim-sid'], 'id': 1}),
                lambda t: msgpack.dumps({'type': 0}), lambda t: msgpack.dumps({'type': 2, 'data': ['msg', 1]}),
                lambda t: msgpack.dumps({'type': 2, 'data': ['msg', 1], 'id': 3}), lambda t: msgpack.dumps({'type': 1}),
                lambda t: msgpack.dumps({'type': 0, 'data': {'t': 1}}), lambda t: msgpack.dumps({'nsp': '/', 'data': ['msg']}),
